@@ -335,13 +335,14 @@ def readLoop (cfg : Cfg) : List Item → List Outcome
 inductive Proto | raw | json | pb | wsJson | wsPb
 deriving DecidableEq, Repr
 
-/-- does `Pack` write the status at all (jsonSubProto / pbSubProto have no such field). -/
+/-- does `Pack` write the status at all (pbSubProto's payload message has no such field;
+    jsonSubProto carries it the way jsonproto does). -/
 def Proto.carriesStatus : Proto → Bool
-  | .raw | .json | .pb => true
-  | .wsJson | .wsPb => false
+  | .raw | .json | .pb | .wsJson => true
+  | .wsPb => false
 
 /-- status as it arrives: `DecodeQuery(EncodeQuery(st))` inside a container that is assumed to
-    deliver the query string unchanged (raw: proved in C05; json/pb: library containers), or the
+    deliver the query string unchanged (raw: proved in C05; json/pb/wsJson: library containers), or the
     zero status where the format has no status field. `none` = un-quoting panics. -/
 def transport (p : Proto) (st : Status) : Option Status :=
   if p.carriesStatus then Status.decode (Status.encode st) else some Status.zero
@@ -368,7 +369,10 @@ inductive Obs | done (st : Status) (decoded : Bool) | hang
 deriving DecidableEq, Repr
 
 /-- `bindReply` → `UnmarshalBody` → read-loop decision → `handleReply` for a REPLY matching the
-    pending call. The read error is stored in the context (`ctx.stat = 400`) and never looked at. -/
+    pending call. The read error is stored in the context (`ctx.stat = 400 Bad Message, cause = the
+    decoder's error`); `handleReply` makes it the call's status when the call's status is still OK
+    after everything else: the reply itself carries an OK status (a failure status sent by the peer
+    wins) and the `postReadReplyBody` plugins, which run as before, agree. -/
 def clientReply (c : Client) (st : Status) (codec : UInt8) (hasBody : Bool) : Obs :=
   match veto? c.postReadReplyHeader with
   | some v => .done v false
@@ -376,11 +380,12 @@ def clientReply (c : Client) (st : Status) (codec : UInt8) (hasBody : Bool) : Ob
     match veto? c.preReadReplyBody with
     | some v => .done v false
     | none =>
-      if (readErr c.codecs c.rdec codec (!hasBody) c.obj).isSome && codec == 0
-      then .hang      -- loop left with the call's mutex held (C02)
-      else
-        .done (if st.ok then ((veto? c.postReadReplyBody).getD st) else st)
-          (hasBody && (readErr c.codecs c.rdec codec (!hasBody) c.obj).isNone)
+      match readErr c.codecs c.rdec codec (!hasBody) c.obj with
+      | some e =>
+        -- also with codec id 0: the read loop then completes the call itself before it leaves
+        -- (`finishBoundReply`), the session disconnects afterwards
+        .done (if st.ok then ((veto? c.postReadReplyBody).getD (stBadMessage e)) else st) false
+      | none => .done (if st.ok then ((veto? c.postReadReplyBody).getD st) else st) hasBody
 
 structure Scenario where
   proto : Proto
